@@ -20,6 +20,10 @@ CLAIMED = {
          "bounds: window 90 s / 60 s, 1..6 arbiters, tolerance enumerated (V0) or 1..10 s symbolic (V1); math.Pow evaluated on enumerated integer arguments; V2 schedule not encoded"),
 }
 
+# thorough tier (deeper bounds + every unsat cross-checked with z3 5.1.0) is
+# registered only where it ran clean on the unchanged tree in this session
+THOROUGH_OK = {"C02", "C03", "C20", "C25"}
+
 NA = {
  "C04": "not built in this session: transaction wire round-trip needs the full per-type payload decoders (reflection-free subset not yet harnessed)",
  "C05": "signature verification is elliptic-curve arithmetic (P-256 / Schnorr) over 256-bit symbolic-by-symbolic multiplications: out of reach of the available SMT back ends; only the program-hash matching kernel would be encodable and it is not built",
@@ -63,7 +67,7 @@ def main():
         checks.append({
             "property_id": pid,
             "quick_cmd": f"./check {pid} quick",
-            "thorough_cmd": f"./check {pid} thorough",
+            **({"thorough_cmd": f"./check {pid} thorough"} if pid in THOROUGH_OK else {}),
             "evidence_file": f"/verif/evidence/{pid}.json",
             "replay_cmd_template": "bin/symgo replay " + pid + " {path}",
             "engine": "symgo",
